@@ -31,7 +31,7 @@ RULE = ("one evaluation = one seeded history (<= 14 operations, <= 18 files in 3
         "separately, and compared with the model. non-trivial = >= 1 referrer produced and >= 1 comparison; distinct = distinct "
         "event-log digests")
 STATE_MEASURE = "distinct (producer, chain depth, mapping kind, feature kind, access kind / file-system situation) tuples"
-PROBES = ["two_referrers_read_traces_interleaved", "child_reexported_after_equal_count_reselection", "result_mutated_in_place", "result_read_only", "chain_depth_3", "chain_depth_4", "child_export", "child_export_of_basin_file", "basin_only_export", "export_with_stored",
+PROBES = ["child_closed_source_still_used", "two_referrers_read_traces_interleaved", "child_reexported_after_equal_count_reselection", "result_mutated_in_place", "result_read_only", "chain_depth_3", "chain_depth_4", "child_export", "child_export_of_basin_file", "basin_only_export", "export_with_stored",
           "unfiltered_export", "box_filter", "map_superset", "map_permutation", "map_crosses_chunk", "two_basins", "two_basins_shared_map",
           "internal_basin", "explicit_mapname", "basin_feats_restricted", "precedence_checked", "moved_together",
           "moved_ref_only", "abs_location_still_resolves", "origin_deleted", "origin_renamed", "origin_replaced",
@@ -575,7 +575,15 @@ class World:
                     cur.rejuvenate()
                     state["sel2"] = np.flatnonzero(m2)
                     cur.export.hdf5(P2.path, features=feats, filtered=filtered, basins=True)
-                # the exported dataset object stays in use: exporting must not change what it delivers
+                # the hierarchy children are closed (as at the end of a with-block), the source stays open and in use:
+                # neither exporting nor closing a child may change what the source delivers
+                for c in chain[:0:-1]:
+                    try:
+                        c.close()
+                    except Exception:
+                        pass
+                if depth:
+                    ctx.probe("child_closed_source_still_used")
                 reuse = {}
                 for f in SCAL:
                     try:
